@@ -303,6 +303,22 @@ def c_active_geometry(rng):
     plain = d2[['v']]
     if isinstance(plain, sp.GeoDataFrame):
         out.append(V('geodataframe.no-geometry-column-still-geo', '', recipe))
+    # ... also when the remaining columns are extension-typed (strings, categoricals, nullable integers)
+    try:
+        d3 = d2.copy()
+        d3['name'] = pd.array([f'n{i}' for i in range(n)], dtype='string')
+        d3['kind'] = pd.Categorical(['a', 'b'] * n)[:n]
+        d3['cnt'] = pd.array(list(range(n)), dtype='Int64')
+        for cols in (['name'], ['kind', 'cnt'], ['v', 'name']):
+            sub = d3[cols]
+            if isinstance(sub, sp.GeoDataFrame):
+                out.append(V('geodataframe.no-geometry-column-still-geo/extension-columns', f'{cols}', recipe))
+                break
+        sub = d3[['name', names[1]]]
+        if not isinstance(sub, sp.GeoDataFrame) or sub.geometry.name != names[1]:
+            out.append(V('geodataframe.active-geometry/column-subset-with-extension-columns', '', recipe))
+    except Exception as e:
+        out.append(V(f'geodataframe.extension-columns/raises-{type(e).__name__}', f'{e}', recipe))
     # spatial operations use the active column
     try:
         bx = (-100.0, -100.0, 100.0, 100.0)
@@ -562,6 +578,19 @@ def c_pack_reference(rng):
     npart_in, npart_out = rng.choice([1, 2, 3]), rng.choice([1, 2])
     recipe = {'points': pts, 'p': p, 'npart_in': npart_in, 'npart_out': npart_out, 'shape': shape}
     df = sp.GeoDataFrame({'geometry': gen.build('point', pts), 'v': list(range(n))})
+    akind = rng.choice(['point', 'multipoint', 'line'])
+    if akind != 'point':
+        # the same centres as one-vertex multipoints / degenerate two-vertex lines (list-backed arrays)
+        els = [[a, b] if akind == 'multipoint' else [a, b, a, b] for a, b in pts]
+        tail = [[500.0, 600.0] if akind == 'multipoint' else [500.0, 600.0, 700.0, 800.0]] * 2
+        if rng.random() < 0.5:
+            # a head slice of a longer frame: the dropped trailing rows lie far outside the kept extent
+            full = sp.GeoDataFrame({'geometry': gen.build(akind, els + tail), 'v': list(range(n + 2))})
+            df = full.iloc[:n]
+            recipe['derivation'] = 'head-slice'
+        else:
+            df = sp.GeoDataFrame({'geometry': gen.build(akind, els), 'v': list(range(n))})
+        recipe['kind'] = akind
     with dask.config.set(scheduler='synchronous'):
         try:
             packed = _ddf(df, npart_in).pack_partitions(npartitions=npart_out, p=p)
